@@ -14,7 +14,7 @@ CHECKS = {
             "Tens of thousands (over a million in thorough) of generated histories of up to 60/200 operations over up to four OwningIovecs (all producer, consumer, arena and structural operations, sizes around the 64/256-byte copy thresholds and the arena chunk sizes) are executed against a shadow pipe model; contents, sizes, return values and the agreement of all read-side views are checked after every operation for every live iovec.",
             "Caller contract respected by construction (buffers outlive iovecs, backrefs used once on their own iovec, pop_front only with a stable prefix). Bounded history length.", "DESIGN.md §5 C03"),
     "C04": (_IOVEC + " + exhaustive enumeration of placeholder fill orders",
-            "The same interpreter with a placeholder-heavy operation mix (many in flight, random fill order, merges into the placeholder's slice, byte-granular consumption up to the blocked slice); visibility is bounded by the earliest pending placeholder after every step, a byte once observable never changes, and Ok/Err of iovs/flatten/stable_consumer tracks pending placeholders; all n! fill orders for n <= 5 (6) placeholders x 3 push-size variants are enumerated.",
+            "The same interpreter with a placeholder-heavy operation mix (many in flight, random fill order, merges into the placeholder's slice, byte-granular consumption up to the blocked slice); visibility is bounded by the earliest pending placeholder after every step, a byte once observable never changes, and Ok/Err of iovs/flatten/stable_consumer tracks pending placeholders; all n! fill orders for n <= 5 (6) placeholders x 3 push-size variants are enumerated; placeholders of up to 4200 bytes are registered with a chosen number of bytes left in the arena's current chunk.",
             "Only an upper bound on visibility while a placeholder is pending.", "DESIGN.md §5 C04"),
     "C05": (_IOVEC + " with an address-level invariant from a source hook (live-chunk registry + quarantine/poison of released chunks); codec, chunker and reader runs with held slices",
             "After every operation every reachable slice (iovec read side, held AnchoredSlices, held StreamChunker chunks, kept StreamReader record clones, Encoder/Decoder output under anchored input) must lie in a caller buffer or wholly inside one live arena chunk, never in a released one, and hold the expected bytes; owned ranges must be disjoint. Released chunks stay mapped and poisoned for the rest of the case, so the test is exact and independent of allocator address reuse.",
@@ -23,7 +23,7 @@ CHECKS = {
             "Thousands (hundreds of thousands in thorough) of generated (payload, encoder plan, decoder plan) cases with boundary-biased lengths, FE/FD-dense bytes, all four input methods per side, scripted short-read/EINTR readers and consumer drains in flight; plus every string over {FE,FD,00} up to length 7 (9) x 4 tiny limit pairs x every 2-way cut x copy/borrow on both sides. Sampled, not exhaustive, at production limits.",
             "Round-trip oracle only (an encoder and decoder wrong in the same way pass; C07 covers that). Hook: hcobs/verif-hooks.", "DESIGN.md §5 C01"),
     "C02": ("property-based metamorphic testing (segmentation / method / drain schedule must not change the output) + validity predicates (stuff-free, length bound) + exhaustive length sweep and small-scope enumeration",
-            "Generated feeding plans are compared with a one-call encoding of the same input on a fresh Encoder; FE FD is searched in the full early-drained ++ finish() byte string; the length bound is checked on every case and on a complete sweep of lengths 0..600 and 252+k*64008+{-2..2}; a dedicated generator places FE FD across the last byte of the 252- and 64008-byte chunks.",
+            "Generated feeding plans are compared with a one-call encoding of the same input on a fresh Encoder; FE FD is searched in the full early-drained ++ finish() byte string; the length bound is checked on every case and on a complete sweep of lengths 0..600 and 252+k*64008+{-2..2}; dedicated generators place FE FD across the last byte of the 252- and 64008-byte chunks and at power-of-two distances (2^6..2^16, +-2) from every point where a scan can start, fed in one call or in pieces.",
             "The one-call reference is the same Encoder; agreement with an independent codec is C07's subject.", "DESIGN.md §5 C02"),
     "C06": ("differential property-based testing: generated streams (records, torn/corrupted records, garbage, delimiter runs, truncations) x scripted readers x block sizes x judge parameters, against an independent splitter + reference decoder",
             "The exact list of (decoded bytes, byte range) returned by successive next_record_bytes calls, then end of stream, is compared with a reference computed by splitting the stream at every FE FD and decoding each segment with the reference decoder under the same size/offset limits; short reads down to one byte, EINTR, block sizes from 0 to the default, and a log truncated at every byte are generated.",
@@ -32,7 +32,7 @@ CHECKS = {
             "Encoder output equals the reference encoding byte for byte on generated payloads/feeding plans; the decoder's verdict and output equal the reference decoder's on valid encodings, header mutations (253..255, near-limit sizes), set/insert/delete/truncate/append mutations and short arbitrary strings, under generated call segmentations; all strings over a header alphabet up to length 6 (7) with limits 3/5 and 2/3, and every truncation of boundary-length encodings, are enumerated.",
             "Trusts refimpl/hcobs_ref.rs (validated against the expected pairs of the crate's own unit tests).", "DESIGN.md §5 C07"),
     "C08": ("property-based testing with a tiling invariant checked chunk by chunk against the input stream (running position, content equality, no FE FD inside or across Data chunks, sticky Eof)",
-            "Every chunk returned by pump is checked against the generated stream at the running position; the same streams, scripted readers (short reads, EINTR), block sizes {0,1,2,...,default} and arena preparations as C06.",
+            "Every chunk returned by pump is checked against the generated stream at the running position; the same streams, scripted readers (short reads, EINTR), block sizes {0,1,2,...,default} and arena preparations as C06, plus arenas whose current chunk is a maximum-size (1 MiB) one with 0..37 bytes left.",
             "Readers never fail hard or end early.", "DESIGN.md §5 C08"),
     "C09": ("property-based testing with an online invariant over the call history (observed bytes never change, drained = observable prefix, observable prefix of final output, lag bound) on generated drain schedules and on multi-MiB generated streams",
             "After every encoder/decoder call the consumable bytes are compared with everything seen before and with the final output; lag is checked against the constant bound after every call, on short messages with dense drain schedules and on streams of 2..24 MiB (16..320 MiB thorough) through Encoder, Decoder and Encoder->Decoder pipelines.",
@@ -44,16 +44,16 @@ CHECKS = {
             "Generated lists of pairs (repeated tags, empty values, borrowed/owned Cow, &str, nested messages to depth 3, re-encoded views; all three constructors; OwningIovec and HCOBS Encoder sinks) are encoded and compared byte for byte with the reference layout, then read back through every MessageView accessor; accept/reject at the i32::MAX limits is decided with values that only claim a length, including exact edge totals.",
             "Trusts refimpl/tlv_ref.rs; more than i32::MAX pairs only in the thorough tier.", "DESIGN.md §5 C11"),
     "C12": ("differential property-based testing of a parser on untrusted bytes: header-shape generator with single perturbations + exhaustive small word strings + every truncation, against an independent validator; accessor agreement as a metamorphic check",
-            "MessageView::new's verdict is compared with an independent validator on perturbed headers, arbitrary strings, every prefix of valid messages and every string of up to 6 (8) words over {0,1,2,3,u32::MAX}; on accepted views all accessors are exercised at indices 0..N+2 and usize::MAX and must agree with each other and with the reference parse, with values tiling the payload by address.",
+            "MessageView::new's verdict is compared with an independent validator on perturbed headers (0..12 values, and up to 1100 values with the perturbation at power-of-two indices), arbitrary strings, every prefix of valid messages and every string of up to 6 (8) words over {0,1,2,3,u32::MAX}; on accepted views all accessors are exercised at indices 0..N+2 and usize::MAX and must agree with each other and with the reference parse, with values tiling the payload by address.",
             "Trusts refimpl/tlv_ref.rs.", "DESIGN.md §5 C12"),
     "C13": ("schedule- and reads-from-generating property testing: the harness owns the scheduler (baton between OS threads at every hooked atomic/lock operation) and a view-based release/acquire memory model; schedules and stale-read choices are proptest values (shrinkable, replayable); bounded-preemption schedules enumerated exhaustively",
             "Tens of thousands (millions in thorough) of generated (thread programs, schedule, reads-from choices) executions of the real AtomicBaseTime code against a harness-owned memory model that produces the stale reads release/acquire permits; snapshots must be whole pairs, never go backwards per thread, be at least as recent as everything that happens-before them, and the writers' effects must equal a sequential replay in lock order; every schedule with <= 2 (3) preemptions for four fixed programs is enumerated.",
             "Promise-free RA fragment (sound: no false alarms; load-buffering not generated); <= 3 (4) threads x <= 3 (4) operations; hook: vouched_time/verif-hooks.", "DESIGN.md §5 C13"),
     "C14": ("differential property-based testing against i128 reference arithmetic, with a boundary-biased generator and a complete grid of window edges x anchor times",
-            "Hundreds of thousands (tens of millions in thorough) of generated (local time, base time, voucher) triples around both window edges, the epoch (including negative sub-millisecond times), the calendar limits and base times near 0 / 2^63 / 2^64, with correct, off-by-one, foreign-parameter and random vouchers; accept/reject compared with the rule evaluated in i128; plus a complete edge grid and now() with a provider answering clock - diff.",
+            "Hundreds of thousands (tens of millions in thorough) of generated (local time, base time, voucher) triples around both window edges, the epoch (including negative sub-millisecond times), the calendar limits, base times near 0 / 2^63 / 2^64 and discrepancies of k*2^p plus an in-window offset (p = 8..62), with correct, off-by-one, foreign-parameter and random vouchers; accept/reject compared with the rule evaluated in i128; plus a complete edge grid and now() with a provider answering clock - diff.",
             "Local milliseconds are the floor of the local time; voucher validity decided by the raffle crate with the crate's CHECK string.", "DESIGN.md §5 C14"),
     "C15": ("model-based property testing: exhaustive DFS over operation sequences + proptest random sequences, VecDeque as reference model",
-            "Every operation sequence over a 10-symbol alphabet up to depth 8 (9 in thorough) on three backings is enumerated and compared step by step with VecDeque, then tens of thousands (millions in thorough) of random sequences of up to 200 operations; the space bound is read through a hook, the crate's debug assertions are on. Exhaustive within the bound, sampled beyond it.",
+            "Every operation sequence over a 10-symbol alphabet up to depth 8 (9 in thorough) on three backings is enumerated and compared step by step with VecDeque, then tens of thousands (millions in thorough) of random sequences of up to 200 operations, and sequences starting from 1000..300000 elements with half of them consumed; the space bound is read through a hook, the crate's debug assertions are on. Exhaustive within the bound, sampled beyond it.",
             "VecDeque is the reference; bounded sequence length; hooks: sliding_deque/verif-hooks (verif_rep).", "DESIGN.md §5 C15"),
     "C16": ("model-based property testing: exhaustive DFS over operation sequences + proptest random sequences, BTreeMap as reference model",
             "Every operation sequence over a 12-symbol alphabet up to depth 7 (8 in thorough) for both item conventions is enumerated and compared with BTreeMap after every step (iteration, first/last, find of every key), then random sequences of up to 150 operations including pushes that must panic.",
@@ -62,7 +62,7 @@ CHECKS = {
             "All fault scripts up to length 4 (5) x 7 counts x 6 attempt limits x 5 (entry point, arena state) pairs are enumerated, plus random scripts and sequences of encode_read/decode_read calls; the instrumented reader records the buffer size of every call, and the result, call count, offered sizes, error kind and final codec output are compared with the reference.",
             "Readers never deliver more than their buffer; reference codec of C07.", "DESIGN.md §5 C17"),
     "C18": ("fault-schedule enumeration + property testing on the C13 scheduler: writers are suspended forever at every hooked step (exhaustively for small programs, randomly beyond) and a solo caller must finish alone within a step budget without lock operations",
-            "Every suspension point of one writer doing two updates and of two concurrent writers is enumerated for snapshot / sequence / try_update callers (and observe_file_time vs get_base_time_unlocked on the process-wide cell), plus random programs, suspension points and stale reads; the solo caller must complete while all peers stay frozen, take no lock (readers) or exactly one try_lock (try_update), need exactly four loads when nothing completes during its read, and try_update must return false while a suspended writer holds the lock.",
+            "Every suspension point of one writer doing two updates and of two concurrent writers is enumerated for snapshot / sequence / try_update callers (and observe_file_time vs get_base_time_unlocked on the process-wide cell), plus random programs, suspension points and stale reads; the solo caller must complete while all peers stay frozen, take no lock (readers) or exactly one try_lock (try_update), need exactly four loads when nothing completes during its read, and try_update must return false while a suspended writer holds the lock; a second family interleaves a reader with a writer that commits one update inside every read attempt (up to 33 consecutive invalidated attempts, writer optionally frozen afterwards): the reader must still take no lock, never block, and use at most four loads per commit that landed inside its call.",
             "Liveness as bounded termination under frozen peers; hook: vouched_time/verif-hooks.", "DESIGN.md §5 C18"),
     "C19": ("stateful property-based testing against the real file system, one fresh process per generated call history (process-global module state), invariant over the history checked after every call",
             "Thousands (hundreds of thousands in thorough) of generated call sequences over files on two writable devices (trusted or not), old and fresh change-times, read-only foreign devices, explicit 'now' values on both sides of the refresh threshold; after every call the base time must not have decreased and any change must equal the change-time (read back with stat) of a file the call could legitimately have observed on a trusted device; untrusted observations report nothing; every returned pair passes VouchedTime::check.",
